@@ -87,4 +87,46 @@ static inline double K_max_double(double a, double b) { return a < b ? b : a; }
   __CPROVER_requires(x > -8388608.0f && x < 8388608.0f)                                                                \
   __CPROVER_assigns()                                                                                                  \
   __CPROVER_ensures((double)__CPROVER_return_value - (double)x <= 0.5 + 6e-8 && (double)x - (double)__CPROVER_return_value <= 0.5 + 6e-8)
+
+/* ================= exam information: the radionuclide read from an Interfile header =================
+   Strings are abstracted to ids (two names are equal iff their ids are): NAME_EMPTY = "", NAME_UNKNOWN = "Unknown".
+   From the property: "The exam information that the format stores (... radionuclide ...) survives the round trip": the
+   writer stores the nuclide's name, half life and branching ratio under the keys "radionuclide name", "radionuclide
+   halflife (sec)", "radionuclide branching factor"; the reader binds those keys to the members radionuclide_name[0],
+   radionuclide_half_life[0], radionuclide_branching_ratio[0] (key table: string literals, not under contract). The block of
+   post_processing must therefore produce a Radionuclide whose half life IS radionuclide_half_life[0] and whose branching
+   ratio IS radionuclide_branching_ratio[0] whenever the data base does not know the name (a known name gives the data
+   base entry). The constructor's contract is its declared interface: each member receives the parameter of its name. */
+#define NAME_EMPTY 0
+#define NAME_UNKNOWN 1
+struct RN { int name; float energy, branching_ratio, half_life; int modality; };
+struct IFH
+{
+  int radionuclide_name0, isotope_name;                 /* radionuclide_name[0], isotope_name (ids) */
+  float radionuclide_half_life_0, radionuclide_branching_ratio_0; /* radionuclide_half_life[0], radionuclide_branching_ratio[0] */
+  int imaging_modality;                                 /* exam_info_sptr->imaging_modality */
+  struct RN exam_radionuclide;                          /* what set_radionuclide received */
+};
+struct RN g_db; /* ghost: the data base's answer for this (modality, name); half_life < 0: not known */
+void K_db_get_radionuclide(struct RN* out, int modality, int name)
+__CPROVER_requires(__CPROVER_w_ok(out, sizeof(*out)))
+__CPROVER_assigns(*out)
+__CPROVER_ensures(out->name == g_db.name && out->energy == g_db.energy && out->branching_ratio == g_db.branching_ratio && out->half_life == g_db.half_life && out->modality == g_db.modality)
+;
+#define CONTRACT_K_radionuclide_ctor                                                                                  \
+  __CPROVER_requires(__CPROVER_w_ok(self, sizeof(*self)) && !__CPROVER_isnanf(renergy) && !__CPROVER_isnanf(rbranching_ratio) && !__CPROVER_isnanf(rhalf_life)) \
+  __CPROVER_assigns(*self)                                                                                             \
+  __CPROVER_ensures(self->name == rname && self->energy == renergy && self->branching_ratio == rbranching_ratio && self->half_life == rhalf_life && self->modality == rmodality)
+#define RN_NOT_NAN(r) (!__CPROVER_isnanf((r).energy) && !__CPROVER_isnanf((r).branching_ratio) && !__CPROVER_isnanf((r).half_life))
+#define HDR_NAME(s) (!((s)->radionuclide_name0 == NAME_EMPTY) ? (s)->radionuclide_name0 : (s)->isotope_name)
+#define CONTRACT_K_ifh_radionuclide                                                                                   \
+  __CPROVER_requires(__CPROVER_is_fresh(self, sizeof(*self)) && RN_NOT_NAN(g_db) && !__CPROVER_isnanf(self->radionuclide_half_life_0) && !__CPROVER_isnanf(self->radionuclide_branching_ratio_0)) \
+  __CPROVER_assigns(self->exam_radionuclide)                                                                           \
+  __CPROVER_ensures(g_db.half_life >= 0 ==> (self->exam_radionuclide.half_life == g_db.half_life && self->exam_radionuclide.branching_ratio == g_db.branching_ratio \
+                                              && self->exam_radionuclide.energy == g_db.energy && self->exam_radionuclide.name == g_db.name)) \
+  __CPROVER_ensures(g_db.half_life < 0 ==> (self->exam_radionuclide.half_life == self->radionuclide_half_life_0        \
+                                             && self->exam_radionuclide.branching_ratio == self->radionuclide_branching_ratio_0 \
+                                             && self->exam_radionuclide.modality == self->imaging_modality              \
+                                             && self->exam_radionuclide.name == (HDR_NAME(self) == NAME_EMPTY ? NAME_UNKNOWN : HDR_NAME(self)) \
+                                             && self->exam_radionuclide.energy == (is_spect ? -1.F : 511.F)))
 #endif
